@@ -18,7 +18,16 @@ use vcommon::{
 
 /// The two numeric instantiations used by the model.
 pub trait Nx:
-    MulDiv + Num + Unsigned + Copy + Default + CheckedSub + std::fmt::Display + Send + Sync + 'static
+    MulDiv
+    + Num
+    + Unsigned<Signed: Num + std::fmt::Debug + Copy + Send + Sync>
+    + Copy
+    + Default
+    + CheckedSub
+    + std::fmt::Display
+    + Send
+    + Sync
+    + 'static
 {
     const NAME: &'static str;
     const UMAX: u128;
@@ -226,4 +235,43 @@ pub fn pow_iter(base: &BigInt, k: u32, unit: &BigInt) -> Vec<BigInt> {
         out.push(p.clone());
     }
     out
+}
+
+/// Market construction for the two instantiations (the generic `MonMarket` has concrete
+/// `Default`s only).
+pub trait Mk<const D: u8>: Nx + gmsol_model::fixed::FixedPointOps<D> {
+    /// A market with the production-like default configuration and empty pools.
+    fn market() -> crate::monmarket::MonMarket<Self, D>;
+    /// `UNIT / 10^9`: scale between the u64/9 presets of the repository's tests and this type.
+    fn scale() -> u128;
+}
+
+impl Mk<9> for u64 {
+    fn market() -> crate::monmarket::MonMarket<u64, 9> {
+        Default::default()
+    }
+    fn scale() -> u128 {
+        1
+    }
+}
+
+impl Mk<20> for u128 {
+    fn market() -> crate::monmarket::MonMarket<u128, 20> {
+        Default::default()
+    }
+    fn scale() -> u128 {
+        100_000_000_000
+    }
+}
+
+/// `apply_exponent_factor` for a whole exponent `k·UNIT`, unbounded (GMX semantics: values below
+/// one unit map to zero, one unit maps to one unit; above, the iterated rounded-down power).
+pub fn aef_big(value: &BigInt, k: u32, unit: &BigInt) -> BigInt {
+    if value < unit {
+        BigInt::from(0u8)
+    } else if value == unit || k == 0 {
+        unit.clone()
+    } else {
+        pow_iter(value, k, unit).pop().unwrap()
+    }
 }
